@@ -9,7 +9,9 @@ PROPS = {
     "C03": {
         "test": "TestC03", "binary": "plain", "level": "exploration",
         "rule": "rapid-generated workflow programs (deterministic profile: 1-7 steps, plugin+foreach, tags, 1-4 outputs, "
-                "all scripted outcome vectors, delays) run against the engine; oracle = reference result set. "
+                "all scripted outcome vectors, delays; expressions over two references, dotted one-of option ids, sub-workflows of three output shapes, "
+                "pattern / enum typed inputs) run against the engine; oracle = reference result set; a fallback verdict ('no steps running') on a "
+                "producible output is re-run up to three times and reported when it repeats (a single one is a counted discard: C09 / K6r). "
                 "non-trivial = >=2 declared outputs or >=1 failing step/deployment; distinct = FNV-64 of the case JSON",
         "quick": {"cases": 3600, "shards": 12, "shrinktime": "30s"},
         "thorough": {"cases": 80000, "shards": 16, "shrinktime": "120s", "timeout_s": 3300},
@@ -23,7 +25,9 @@ PROPS = {
                 "when the reference says nothing is producible (every generated plugin step has a 300 ms closure timeout, DESIGN 13.3). In an "
                 "eighth of the cases the motif 'a stage output becomes impossible': a victim ending in one of 9 ways (success, error / alt output, "
                 "crash, malformed output, failed deployment, crash while starting through a write-refusing connection or a schema mismatch, disabled) "
-                "x a follower whose wait_for needs one of 8 stage outputs of the victim x a never-ending bystander. A quarter of the cases runs under injected scheduling delays (1-3 schedule points held "
+                "x a follower whose wait_for needs one of 8 stage outputs of the victim x a never-ending bystander; in a sixteenth the motif "
+                "'victim stopped' (stop_if fires while the victim waits for its deployment input, during an interruptible or uninterruptible deployment, "
+                "while it waits to be enabled, or while it runs; a follower needs one of 6 stage outputs). A quarter of the cases runs under injected scheduling delays (1-3 schedule points held "
                 "5-40 ms on their first 1-3 passes). Cases of open finding K14 are "
                 "recognised with a second, strict reference and tamed (counted). non-trivial = >=2 steps and (a non-success outcome or fan-in >= 21)",
         "quick": {"cases": 1200, "shards": 12, "shrinktime": "40s"},
@@ -99,7 +103,8 @@ PROPS = {
         "test": "TestC10", "binary": "plain", "level": "exploration",
         "rule": "rapid-generated programs (all tags incl. soft-optional, stop_if, foreach, deploy / enabled / wait_for expressions) are prepared "
                 "and the engine's DAG (nodes + typed edges read through ListNodes / OutstandingDependencies / ListInboundConnections) must EQUAL the "
-                "graph derived from the text by the reference (both directions); then single-point corruptions of the accepted program (24 kinds: stop_if on a step without cancellation handler, non-numeric closure timeout, "
+                "graph derived from the text by the reference (both directions); then single-point corruptions of the accepted program (30 kinds: stop_if on a step without cancellation handler, non-numeric closure timeout, ill-typed / unknown fields under optional tags, "
+                "a step depending on its own later output (wait_for / input / enabled / under an optional tag), "
                 "cycles through input / wait_for / one-of option, renamed step / stage / output / field / input field, stage without outputs, unknown "
                 "function, wrong arity, missing required input, ill-typed literals, unknown fields / keys / plugin step, no outputs, bad version) "
                 "must each be rejected by Prepare. non-trivial = accepted program with a tag or > 60 edges; every corruption counts",
